@@ -20,6 +20,9 @@ RULE = (
     "non-trivial = old != new and old accepts at least one call shape; distinct = distinct (old,new) pair"
 )
 ASSUMPTIONS = [
+    "class renderings (sampled 1/41 quick, 1/11 thorough per rendering): the same pairs as @staticmethod, ordinary method and @classmethod of a "
+    "public class S, judged with all four clauses on m.S.f; the implicit self/cls is written before the text, so it is positional-only iff "
+    "the text contains `/` - a CHANGED_KIND breakage on it is justified exactly then, any other breakage naming it is not",
     "default-text phase (complete, 4 templates x 25 x 25): two default texts denote the same default iff CPython evaluates both literals "
     "to values with the same repr (so 1, True and 1.0 are three different defaults, 1 and 0x1 the same one); non-literal defaults are "
     "compared by syntax tree. Changed => some breakage naming the parameter; same => no breakage at all",
@@ -160,11 +163,11 @@ def _required(entry) -> bool:
     return not default and kind not in ("va", "vk")
 
 
-def judge(old, new, old_mask: int, new_mask: int, breakages, shapes=CALL_SHAPES) -> list[Fail]:
+def judge(old, new, old_mask: int, new_mask: int, breakages, shapes=CALL_SHAPES, path_f: str = "m.f") -> list[Fail]:
     """All clauses for one pair. `breakages` = list of (kind_name, obj_path, old_param_name|None, new_param_name|None)."""
     fails: list[Fail] = []
     old_t, new_t = render(old), render(new)
-    on_f = [b for b in breakages if b[1] == "m.f"]
+    on_f = [b for b in breakages if b[1] == path_f]
     # clause 3: identical => nothing
     if old == new:
         if breakages:
@@ -210,7 +213,7 @@ def judge(old, new, old_mask: int, new_mask: int, breakages, shapes=CALL_SHAPES)
             fails.append(Fail("required-reported", "unreported", f"def f({old_t}) -> def f({new_t}): {name} became required, nothing reported for it"))
     # clause 4: every parameter breakage is justified
     for kind, path, op, np_ in breakages:
-        if path != "m.f":
+        if path != path_f:
             fails.append(Fail("justified", "wrong-object", f"def f({old_t}) -> def f({new_t}): breakage {kind} on {path}"))
             continue
         name = op or np_
@@ -258,6 +261,10 @@ def check_case(case) -> list[Fail]:
     old, new = parse_sig(case["old"]), parse_sig(case["new"])
     shapes = shapes_for(case)
     om, nm = accept_mask(case["old"], shapes), accept_mask(case["new"], shapes)
+    if case.get("render") in CLASS_RENDERINGS:
+        r = case["render"]
+        br = griffe_breakages(griffe_class_module(case["old"], r), griffe_class_module(case["new"], r))
+        return judge_class(old, new, om, nm, br, shapes, r)
     if case.get("render") == "inherited-method":
         br = griffe_breakages(griffe_method_module(case["old"]), griffe_method_module(case["new"]))
         return judge_method(old, new, om, nm, br, shapes)
@@ -359,6 +366,40 @@ def griffe_method_module(text: str):
 
 METHOD_PATHS = ("m._B.f", "m.S.f")
 
+CLASS_RENDERINGS = ("staticmethod", "method", "classmethod")
+
+
+def griffe_class_module(text: str, rendering: str):
+    """The same signature as a static method / ordinary method / class method of a public class: callers pass exactly the
+    parameters of `text` (S.f(...) resp. S().f(...)); an implicit first parameter, where there is one, never changes."""
+    import griffe
+
+    if rendering == "staticmethod":
+        code = f"class S:\n    @staticmethod\n    def f({text}): ...\n"
+    elif rendering == "classmethod":
+        code = f"class S:\n    @classmethod\n    def f(cls{', ' + text if text else ''}): ...\n"
+    else:
+        code = f"class S:\n    def f(self{', ' + text if text else ''}): ...\n"
+    return call("total", griffe.visit, "m", filepath=None, code=code, what=f"visit {rendering} f({text})")
+
+
+def judge_class(old, new, old_mask: int, new_mask: int, breakages, shapes, rendering: str) -> list[Fail]:
+    """All four clauses, as for the module-level function; positions are compared among the explicit parameters."""
+    implicit = {"method": "self", "classmethod": "cls"}.get(rendering)
+    fails = []
+    if implicit:
+        # `self, a, /` makes the implicit parameter positional-only: its kind changes iff one of the two texts has a `/`
+        kind_changed = ("/" in render(old)) != ("/" in render(new))
+        on_implicit = [b for b in breakages if implicit in (b[2], b[3])]
+        if [b for b in on_implicit if not (kind_changed and b[0] == "PARAMETER_CHANGED_KIND")]:
+            fails.append(Fail("justified", f"implicit-parameter[{rendering}]", f"{rendering} f({render(old)}) -> f({render(new)}): breakage names the implicit parameter {implicit}: {breakages}"))
+        breakages = [b for b in breakages if b not in on_implicit]
+    for f in judge(old, new, old_mask, new_mask, breakages, shapes, path_f="m.S.f"):
+        if f.clause == "call-breaking-reported" and implicit and on_implicit:
+            continue  # "at least one breakage on that function" is satisfied by the (justified) one on the implicit parameter
+        fails.append(Fail(f.clause, f"{f.kind}[{rendering}]", f"[{rendering} of public class S] " + f.message, f.detail))
+    return fails
+
 
 def judge_method(old, new, old_mask: int, new_mask: int, breakages, shapes) -> list[Fail]:
     """Clauses 1 and 3 for the inherited-method rendering: the function is public only as `m.S.f` (inherited from the
@@ -407,6 +448,30 @@ def _enumerate_methods(ctx, sigs, shapes, select) -> None:
             for f in fails:
                 case = {"space": "abc3", "render": "inherited-method", "old": texts[i], "new": texts[j]}
                 ctx.fail(f, case)  # (the known multiple-values finding applies to methods exactly as to functions: same predicate)
+
+
+def _enumerate_class_renderings(ctx, sigs, shapes, select) -> None:
+    """Sampled: the pair rendered as static method, method and class method of a public class."""
+    texts = [render(s) for s in sigs]
+    masks = [accept_mask(t, shapes) for t in texts]
+    for rendering in CLASS_RENDERINGS:
+        mods = [griffe_class_module(t, rendering) for t in texts]
+        n = len(sigs)
+        for i in range(n):
+            if i % ctx.nshards != ctx.shard:
+                continue
+            if ctx.out_of_budget():
+                break
+            for j in range(n):
+                if not select(i, j, rendering):
+                    continue
+                br = griffe_breakages(mods[i], mods[j])
+                fails = judge_class(sigs[i], sigs[j], masks[i], masks[j], br, shapes, rendering)
+                nontrivial = 1 if (i != j and masks[i]) else None
+                cls = "call-breaking" if masks[i] & ~masks[j] else ("identical" if i == j else "compatible")
+                ctx.case(nontrivial, (rendering + ":" + cls,), None, enumerated=True)
+                for f in fails:
+                    ctx.fail(f, {"space": "abc3", "render": rendering, "old": texts[i], "new": texts[j]})
 
 
 # ----------------------------------------------------------------------------- default values as written (texts, not codes)
@@ -474,6 +539,8 @@ def run_shard(ctx) -> None:
     mod_m = 19 if ctx.quick else 5
     _enumerate_default_texts(ctx)
     _enumerate_methods(ctx, sigs, CALL_SHAPES, lambda i, j: (i * 7919 + j * 104729 + salt_m) % mod_m == 0)
+    mod_c = 41 if ctx.quick else 11
+    _enumerate_class_renderings(ctx, sigs, CALL_SHAPES, lambda i, j, r: (i * 7919 + j * 104729 + salt_m + len(r)) % mod_c == 0)
     _enumerate(ctx, sigs, CALL_SHAPES, "abc3", lambda i, j: True)
     ctx.res.extra["enum_complete"] = not ctx.res.budget_exhausted
     if not ctx.quick:
